@@ -13,8 +13,8 @@ import (
 
 func init() {
 	register(&Prop{
-		ID:    "C17",
-		Title: "Group execution honours each strategy's contract",
+		ID:          "C17",
+		Title:       "Group execution honours each strategy's contract",
 		Explanation: "R17.1 Execute's dispatch table (every strategy constant, and unknown values, to its executor). R17.2 in Execute every store into the result slice at a computed index is dominated by a check that the slice is non-empty / the index is in range (an empty group must not panic). R17.3 the send of a member's response is cancellable, or the response channel is buffered for all members, or every consumer of executeEach drains the channel (no early return from its range loop): otherwise members that finish after the outcome is decided block forever. R17.4 thresholds: All = 0, Most = floor(n/2), Any = n-1 allowed errors; ExecuteUpTo returns the error exactly when errCount > allowed, keeps the first error, stores each result at the member's own index, cancels when the budget is exceeded and on exit. R17.5 ExecuteOne runs members sequentially in order, returns at the first success and otherwise the first error; ExecuteFast returns from the loop exactly on a nil error and otherwise the first failing response after the loop; ExecuteRace returns the first response whatever its error; each returns the response's own index and cancels the rest on exit. R17.6 executeEach: Add(len(members)) before spawning, Done deferred in each member goroutine, one closer that waits and then closes, each member gets the shared context and its own index. R17.6 every member's outcome is reported exactly once. R17.7 member calls use the context the strategy gives them. Does NOT decide outcomes for all completion orders, nor cancellation timing.",
 		Assumptions: []string{"sync.WaitGroup semantics; a buffered channel of capacity n accepts n sends without a receiver"},
 		Run:         runC17,
